@@ -40,7 +40,54 @@ def mock(rec, el=None):
     return A()
 
 
+def replay_wide(rec, ctx):
+    """power-of-ten rates spread over many orders of magnitude: code vs the exact populations 10^logw / sum"""
+    import signal
+    from cherab.core.atomic import elements as E
+    from cherab.tools.plasmas import ionisation_balance as IB
+    Z = rec["Z"]
+    el = getattr(E, ELEMENTS[Z])
+    sexp, aexp, logw = rec["sexp"], rec["aexp"], rec["logw"]
+
+    from cherab.core.atomic import AtomicData
+    from cherab.core.atomic import rates as R
+
+    def mk(base, v):
+        class C(base):
+            def __init__(self): pass
+            def evaluate(self, ne, te): return v
+        return C()
+
+    class A(AtomicData):
+        def ionisation_rate(self, ion, charge): return mk(R.IonisationRate, 10.0 ** (-sexp[charge]))
+        def recombination_rate(self, ion, charge): return mk(R.RecombinationRate, 10.0 ** (-aexp[charge - 1]))
+    m = max(logw)
+    w = [10.0 ** (x - m) for x in logw]
+    exact = [x / sum(w) for x in w]
+    tag = f"wide-rates:Z{Z}:span{rec['span']}:pattern{rec['pat']}"
+
+    def handler(signum, frame):
+        raise TimeoutError()
+    old = signal.signal(signal.SIGALRM, handler)
+    signal.alarm(20)
+    try:
+        fa = IB.fractional_abundance(A(), el, 3.0e19, 100.0)
+        signal.alarm(0)
+    except TimeoutError:
+        return [{"sig": f"fractional_abundance:does-not-terminate:{tag}", "detail": f"no result within 20 s (normally 20 ms) for S = 10^-{sexp}, alpha = 10^-{aexp} m^3/s"}]
+    finally:
+        signal.alarm(0)
+        signal.signal(signal.SIGALRM, old)
+    got = [float(fa[z]) for z in range(Z + 1)]
+    if max(abs(g - e) for g, e in zip(got, exact)) > 1e-6:
+        return [{"sig": f"fractional_abundance:differs-from-exact-balance:{tag}",
+                 "detail": f"{[round(g, 6) for g in got]} vs exact {[float('%.6g' % e) for e in exact]} for S = 10^-{sexp}, alpha = 10^-{aexp} m^3/s (n_e = 3e19)"}]
+    return []
+
+
 def replay_any(rec, ctx):
+    if rec.get("span"):
+        return replay_wide(rec, ctx)
     if rec.get("part") == "session":
         from . import c09_session
         return c09_session.replay(rec, ctx)
@@ -160,10 +207,12 @@ CONSTANTS
   Zs = {zs}
   ZExact = 8
   Pats = {pats}
+  Spans = {spans}
 INVARIANT InUnitInterval
 INVARIANT Balance
 INVARIANT MeanChargePositive
 INVARIANT NoDonorNoCx
+INVARIANT WideBalance
 INVARIANT EmitCase
 """
 
@@ -174,7 +223,7 @@ def run(v):
     else:
         cfgs = [("{1, 2, 3, 4, 6, 8}", "{0, 1, 2}"), ("{10, 13, 18}", "{0, 1}")]
     for zs, pats in cfgs:
-        res = core.run_tlc("IonBalance", CFG.format(zs=zs, pats=pats), workers=1, seed=v.seed, tag="C09", timeout=3000)
+        res = core.run_tlc("IonBalance", CFG.format(zs=zs, pats=pats, spans="{0}"), workers=1, seed=v.seed, tag="C09", timeout=3000)
         core.tlc_must_pass(res, "IonBalance")
         v.add_tlc(res, f"IonBalance/{zs}")
         cases = [r for r in res.records if "Z" in r]
@@ -186,6 +235,18 @@ def run(v):
                 v.violation(x["sig"], x["detail"], r)
         v.add_cases(len(cases), keys=[json.dumps(r, sort_keys=True) for r in cases])
         v.sample(cases[len(cases) // 2])
+    # rates spread over many orders of magnitude (powers of ten, exact populations as integer exponents)
+    res = core.run_tlc("IonBalance", CFG.format(zs="{2, 6}", pats="{0, 1, 2, 3}", spans="{2, 6, 20}"), workers=1, seed=v.seed, tag="C09-wide", timeout=3000)
+    core.tlc_must_pass(res, "IonBalance/wide")
+    v.add_tlc(res, "IonBalance/wide-rates")
+    wide = [r for r in res.records if r.get("span")]
+    if len(wide) != 24:
+        raise core.MachineryError(f"vacuity: {len(wide)} wide-rate instances")
+    out = core.fan_out("mbt.c09", "replay_wide", wide, None, chunk=1)
+    for r, vs in zip(wide, out):
+        for x in vs:
+            v.violation(x["sig"], x["detail"], r)
+    v.add_cases(len(wide), keys=[json.dumps([r["Z"], r["span"], r["pat"]]) for r in wide])
     from . import c09_session
     c09_session.run_part(v)
     v.assumptions += ["constant integer rates times 1e-14 m^3/s at n_e = 3e19 m^-3 (physical magnitudes: with O(1) rates the lsq_linear system is hopelessly scaled; observed, not asserted)",
